@@ -14,7 +14,7 @@ RULE = ("Hypothesis draws y = c + z*z (c in {1,0.5,3}, z a Gaussian TT of ranks 
         "of the internal randomness is drawn. Oracle: q has the shape of y and ||dense(q)*dense(y) - dense(x)|| <= "
         "5 tol ||x|| (tol = eps, or 1e-12 for the operators) + roundoff; x/s exact/roundoff. Non-trivial: y has a rank>1 "
         "and some mode>=3.")
-BUDGET = {"quick": 1200, "thorough": 24000}
+BUDGET = {"quick": 1200, "thorough": 48000}
 FLOORS = {"quick": {"form:x/y": 100, "form:s/y": 100, "form:ediv": 200, "prec:c": 80, "starting_tensor": 80, "form:x/s": 60}}
 SHRINK = {"quick": False, "thorough": True}
 ASSUMPTIONS = ["y is assembled with the library's own + and * (C03 checks those); the oracle uses the dense value of the "
